@@ -449,7 +449,7 @@ func runC09(c *Ctx) {
 		resetConst := s.summary(reset, 0, true) // constant stores only
 		var fields []string
 		for l := range sn.mayW {
-			if !strings.ContainsAny(l, ".[") {
+			if !strings.Contains(l, "[") {
 				fields = append(fields, l)
 			}
 		}
@@ -463,10 +463,13 @@ func runC09(c *Ctx) {
 			if _, isPtr := ft.Underlying().(*types.Pointer); isPtr {
 				continue // canvases: handled below
 			}
+			if _, isStruct := ft.Underlying().(*types.Struct); isStruct && strings.Contains(f, ".") == false && hasSubLoc(sn.mayW, f) {
+				continue // a nested state struct: its fields are checked one by one
+			}
 			nf++
-			c.Check(resetConst.mw[f], "R1-reset", "AnimDecoder."+f, p.Pos(reset.Pos()), "modified by NextFrame and restored to a constant by Reset",
+			c.Check(coveredBy(resetConst.mw, f), "R1-reset", "AnimDecoder."+f, p.Pos(reset.Pos()), "modified by NextFrame and restored to a constant by Reset",
 				"NextFrame modifies AnimDecoder."+f+" but Reset does not restore it to a constant: a replay after Reset starts from leftover state")
-			c.Check(sn.mw[f], "R3-history", "AnimDecoder."+f, p.Pos(next.Pos()), "written on every successful path of NextFrame",
+			c.Check(coveredBy(sn.mw, f), "R3-history", "AnimDecoder."+f, p.Pos(next.Pos()), "written on every successful path of NextFrame",
 				"AnimDecoder."+f+" is updated only on some paths through NextFrame: on the others the value of an older frame steers the key-frame decision of the next one")
 		}
 		c.Floor("R1-reset", nf, 4)
@@ -508,12 +511,34 @@ func runC09(c *Ctx) {
 }
 
 func fieldTypeOf(st *types.Struct, name string) types.Type {
+	// a dotted path goes through nested (embedded or named) struct fields
+	head, rest, nested := strings.Cut(name, ".")
 	for i := 0; st != nil && i < st.NumFields(); i++ {
-		if st.Field(i).Name() == name {
-			return st.Field(i).Type()
+		if st.Field(i).Name() == head {
+			if !nested {
+				return st.Field(i).Type()
+			}
+			if in, ok := st.Field(i).Type().Underlying().(*types.Struct); ok {
+				return fieldTypeOf(in, rest)
+			}
+			return nil
 		}
 	}
 	return nil
+}
+
+// coveredBy: the location or one of its enclosing struct locations is in the set.
+func coveredBy(set map[string]bool, loc string) bool {
+	for {
+		if set[loc] {
+			return true
+		}
+		i := strings.LastIndex(loc, ".")
+		if i < 0 {
+			return false
+		}
+		loc = loc[:i]
+	}
 }
 
 // writesAllPix: the function stores to every element of param0.Pix (full-range loop).
@@ -960,4 +985,13 @@ func c09CanvasRefresh(c *Ctx, p *Program, next *ssa.Function) {
 			"AnimDecoder."+f+" is completely rewritten on some paths through NextFrame but not on the one that returns at "+bad+": the next frame is composited over pixels of an older frame")
 	}
 	c.Floor("R5-canvas-refresh", len(fields), 2)
+}
+
+func hasSubLoc(set map[string]bool, loc string) bool {
+	for l := range set {
+		if strings.HasPrefix(l, loc+".") {
+			return true
+		}
+	}
+	return false
 }
